@@ -1,5 +1,63 @@
 package main
 
-import "fmt"
+import (
+	"encoding/json"
+	"fmt"
+	"os"
 
-func replay(path string) int { fmt.Println("replay not implemented yet:", path); return 2 }
+	"cvssmc/internal/ev"
+)
+
+// replay re-runs exactly the case of a violation artefact where the case is a single input
+// string; for the engines whose cases are histories, tables or templates (all of which run in a
+// few seconds) it re-runs the whole check of that property.
+func replay(path string) int {
+	b, err := os.ReadFile(path)
+	if err != nil {
+		fmt.Println(err)
+		return 2
+	}
+	var doc struct {
+		Property  string       `json:"property_id"`
+		Tier      string       `json:"tier"`
+		Violation ev.Violation `json:"violation"`
+	}
+	if err := json.Unmarshal(b, &doc); err != nil {
+		fmt.Println(err)
+		return 2
+	}
+	os.Setenv("VERIF_ROOT", os.TempDir()+"/verif-replay") // do not overwrite evidence or artefacts
+	c := doc.Violation.Case
+	vec, hasVec := c["vector"].(string)
+	dec, hasDec := c["decoder"].(string)
+	ver, hasVer := c["cvss"].(float64)
+	if hasVec && hasDec && hasVer {
+		level := map[string]int{"base": 0, "temporal": 1, "environmental": 2}[dec]
+		r := ev.New(doc.Property, "quick", "exploration")
+		G := &gprops{accept: true, classify: true, total: true, order: false, decOn: true,
+			dec: props{scoreLevel: -1, grid: true, neutral: true, views: true, fields: true, encode: true}}
+		gs := &gstats{}
+		judge(r, G, gs, int(ver), level, vec)
+		for lv := 0; lv <= level; lv++ {
+			G2 := &gprops{decOn: true, dec: props{scoreLevel: lv}}
+			judge(r, G2, gs, int(ver), level, vec)
+		}
+		fmt.Printf("replayed %q at the v%d %s decoder with every oracle\n", vec, int(ver), dec)
+		code := r.Finish()
+		if code == 1 {
+			fmt.Println("REPRODUCED")
+		} else {
+			fmt.Println("not reproduced")
+		}
+		return code
+	}
+	def, ok := checks[doc.Property]
+	if !ok {
+		fmt.Println("cannot replay: unknown property", doc.Property)
+		return 2
+	}
+	fmt.Printf("the case of this artefact is not a single input string; re-running the whole %s check (%s)\n", doc.Property, doc.Tier)
+	r := ev.New(doc.Property, "quick", def.level)
+	def.fn(r, false)
+	return r.Finish()
+}
